@@ -462,6 +462,9 @@ class QuantityMachine(Machine):
             if same:
                 return {"op": rng.choice(["conv_to_member", "conv_to_quantity"]), "a": a,
                         "b": rng.choice(same), "how": rng.choice(["to", "value"])}
+        if self.pool and rng.random() < 0.05:
+            # the in-place merge of units of one dimension: the physical value stays
+            return {"op": "rebase_member", "a": rng.randrange(len(self.pool))}
         if self.pool and rng.random() < 0.04:
             cands = [i for i, e_ in enumerate(self.pool) if "src" in e_]
             if cands:
@@ -499,7 +502,7 @@ class QuantityMachine(Machine):
             def scalar():
                 r = rng.random()
                 if r < 0.08:
-                    return 0.0
+                    return rng.choice([0.0, 0.0, -0.0])
                 if r < 0.3:
                     return float(rng.choice([1, 2, 5, 10, 1000, -1, -4]))
                 lim = 60 if cfg["extreme"] else 8
@@ -1030,6 +1033,37 @@ class QuantityMachine(Machine):
             if isinstance(v, np.ndarray):
                 self.pool[k]["src"] = v          # the caller keeps its array
             return "new", text
+        if kind == "rebase_member":
+            if not self.pool:
+                return "skip", None
+            e = self._slot(op["a"])
+            q, led = e["q"], e["led"]
+            if led is None or not led["terms"]:
+                return "skip", None
+            fv = UM.factor(led["terms"])
+            want = led["B"] / fv
+            if not (1e-200 < fv < 1e200) or not np.all(np.isfinite(want)):
+                return "skip_range", None
+            try:
+                with np.errstate(all="ignore"):
+                    q.rebase()
+                    got = q.value(led["text"])
+            except Exception as ex:
+                raise Violation("same_dimension_conversion_refused",
+                                {"from": led["text"], "via": "rebase()", "to": led["text"],
+                                 "error": [type(ex).__name__, repr(ex.args)[:200]]},
+                                signature="C04/accept_missing/rebase")
+            if not self._close(got, want, (led["chain"] + 2) * 1e-12):
+                raise Violation("converted_value_wrong",
+                                {"from": led["text"], "via": "rebase() -> " + safe_repr(q.units()),
+                                 "to": led["text"], "got": safe_repr(got), "want": safe_repr(want)},
+                                signature="C04/value/rebase")
+            # back to the unit text the ledger knows
+            with np.errstate(all="ignore"):
+                q.to(led["text"])
+            led["chain"] += 2
+            self.nontrivial = True
+            return "rebase_ok", led["text"]
         if kind == "poke_src":
             # the caller reuses its buffer: the quantity was built from the numbers, not from
             # the buffer, so the ledger does not move
@@ -1258,13 +1292,33 @@ class QuantityMachine(Machine):
                                     signature=f"C04/refused_changed/{op['how']}")
                 return "refused", [led["text"], text]
             # accepted conversions ----------------------------------------------------
+            zero_recip = False
             if rel == "reciprocal":
                 if np.any(np.asarray(B) == 0):
-                    return "skip_zero_recip", None
+                    if not isinstance(B, np.ndarray) or op["how"] != "value":
+                        return "skip_zero_recip", None
+                    # element-wise reciprocal of an array holding zeros: +-inf by the sign of
+                    # the zero, the other elements as usual (out-of-place query only)
+                    zero_recip = True
                 newB = 1.0 / B
             else:
                 newB = B
             want = newB / fv
+            if zero_recip:
+                fin = np.isfinite(want)
+                if np.any((np.abs(want[fin]) > 1e290) | ((np.abs(want[fin]) < 1e-290) & (want[fin] != 0))):
+                    return "skip_range", None
+                try:
+                    got = q.value(text)
+                except Exception as ex:
+                    return "zero_recip_refused", type(ex).__name__
+                self.stats.probe("reciprocal_of_an_array_with_zeros")
+                if not self._close(got, want, (led["chain"] + 1) * 1e-12):
+                    raise Violation("converted_value_wrong",
+                                    {"from": led["text"], "to": text, "relation": rel, "how": "value",
+                                     "got": safe_repr(got), "want": safe_repr(want)},
+                                    signature="C04/value/reciprocal_zero")
+                return "value_ok:reciprocal_zero", [led["text"], text]
             if not np.all(np.isfinite(want)) or np.any(
                     (np.abs(want) > 1e290) | ((np.abs(want) < 1e-290) & (want != 0))):
                 return "skip_range", None
@@ -1384,7 +1438,9 @@ class QuantityMachine(Machine):
         w = np.asarray(want, dtype=float)
         if g.shape != w.shape:
             return False
-        return bool(np.all((g == w) | (np.abs(g - w) <= tol * np.abs(w))))
+        with np.errstate(all="ignore"):
+            fin = np.isfinite(g) & np.isfinite(w)      # infinities only equal themselves
+            return bool(np.all((g == w) | (fin & (np.abs(g - w) <= tol * np.abs(w)))))
 
     # ------------------------------------------------------------------ shrinking / docs
     @classmethod
